@@ -13,7 +13,7 @@ for d in "$V"/seeded/$pat/; do
   T="/tmp/regress_$$_$name"
   git -C /repo worktree prune
   git -C /repo worktree add -q -f --detach "$T" HEAD || continue
-  if ! git -C "$T" apply "$d/patch.diff" 2>/dev/null; then
+  if ! git -C "$T" apply "$d/patch.diff" 2>/dev/null && ! git -C "$T" apply --3way "$d/patch.diff" 2>/dev/null; then
     echo "$name: PATCH DOES NOT APPLY (to the current /repo HEAD)"; git -C /repo worktree remove --force "$T"; continue
   fi
   out=$(cd "$V" && NV_REPO="$T" NV_NO_EVIDENCE=1 ./check "$prop" 2>&1)
